@@ -48,7 +48,7 @@ Claim(u) ==
   /\ IF ~open
      THEN last' = [last EXCEPT ![u] = epoch] /\ UNCHANGED <<flow, claimed, paidE, refused>>
      ELSE LET first == IF last[u] >= 0 THEN last[u] + 1 ELSE flow.start
-              acc == ClaimWalk(flow, first, epoch, [e \in 1 .. epoch |-> W[e][u]], [e \in 1 .. epoch |-> SumW(W[e])],
+              acc == ClaimWalk(flow, first, epoch, [e \in 1 .. epoch |-> ShareOf(W[e][u], SumW(W[e]))],
                                [ok |-> TRUE, why |-> "", em |-> flow.em, claimed |-> claimed, pays |-> <<>>])
           IN IF acc.ok
              THEN /\ flow' = [flow EXCEPT !.em = acc.em] /\ claimed' = acc.claimed /\ last' = [last EXCEPT ![u] = epoch]
